@@ -13,6 +13,7 @@
 import EasyMl.Lemmas.PartitionGrid
 import EasyMl.Lemmas.LiveView
 import EasyMl.Lemmas.MatrixEq
+import EasyMl.Lemmas.InteropNames
 
 namespace EasyMl.C12
 open EasyMl EasyMl.Spec EasyMl.Fallible EasyMl.MatrixView
@@ -109,6 +110,72 @@ example :
       e.cell 1 0 = none ∧ e.cell usizeMax usizeMax = none := by
   refine ⟨by simp only [MExpr.LeavesOk]; decide, by decide, by decide, by decide, by decide,
     by decide, by decide⟩
+
+/-! ## The wrappers are positional: dimension names never matter -/
+
+/-- **`MatrixRefTensor` is positional.**  Over any 2-dimensional tensor view its rows and columns
+    are the first and the second length and index `(r, c)` reads `[r, c]`; renaming the tensor's
+    dimensions (to anything: "row"/"column" swapped, the empty name, …) gives the very same
+    matrix view. -/
+theorem matrix_ref_tensor_positional {ν : Type} [DecidableEq ν] (t : TView ν) (a b : ν × Nat)
+    (h : t.shape = [a, b]) (m1 m2 : ν) :
+    MView.ofTensor t = .ok ⟨a.2, b.2, fun r c => t.get [r, c]⟩ ∧
+    MView.ofTensor (t.rename [m1, m2]) = MView.ofTensor t :=
+  ⟨ofTensor_eq t a b h, ofTensor_rename t a b h m1 m2⟩
+
+/-- **`with_names` refuses exactly equal names (or an empty view)** … -/
+theorem with_names_ok_iff {ν : Type} [DecidableEq ν] (src : MView) (n1 n2 : ν) :
+    (∃ t, tensorRefMatrixWithNames src n1 n2 = .ok (.ok t)) ↔
+      n1 ≠ n2 ∧ 1 ≤ src.rows ∧ 1 ≤ src.columns :=
+  withNames_ok_iff src n1 n2
+
+/-- … **and otherwise the names are irrelevant**: for *every* two pairs of distinct names the
+    round trips matrix → tensor → matrix succeed and expose the same size and, cell by cell, the
+    same answers — those of the view they started from. -/
+theorem interop_names_irrelevant {ν : Type} [DecidableEq ν] (src : MView) (n1 n2 m1 m2 : ν)
+    (hn : n1 ≠ n2) (hm : m1 ≠ m2) (hr : 1 ≤ src.rows) (hc : 1 ≤ src.columns) :
+    ∃ t t' v v', tensorRefMatrixWithNames src n1 n2 = .ok (.ok t) ∧ MView.ofTensor t = .ok v ∧
+      tensorRefMatrixWithNames src m1 m2 = .ok (.ok t') ∧ MView.ofTensor t' = .ok v' ∧
+      v.rows = v'.rows ∧ v.columns = v'.columns ∧ v.rows = src.rows ∧ v.columns = src.columns ∧
+      ∀ r c, v.get r c = v'.get r c ∧ v.get r c = src.get r c := by
+  obtain ⟨t, v, h1, h2, hr1, hc1, hg1⟩ := roundtrip_names_irrelevant src n1 n2 hn hr hc
+  obtain ⟨t', v', h1', h2', hr2, hc2, hg2⟩ := roundtrip_names_irrelevant src m1 m2 hm hr hc
+  exact ⟨t, t', v, v', h1, h2, h1', h2', by rw [hr1, hr2], by rw [hc1, hc2], hr1, hc1,
+    fun r c => ⟨by rw [hg1, hg2], hg1 r c⟩⟩
+
+/-- **The tensor-backed leaves, for every pair of distinct names.**  A `Tensor` of shape
+    `[(n1, l1), (n2, l2)]` holding its offsets, seen through `MatrixRefTensor`, is the row-major
+    `l1 × l2` leaf of this model (`MExpr.leaf`); accessed in the order `[n2, n1]`
+    (`TensorAccess`) and then seen through `MatrixRefTensor` it is the column-major `l2 × l1`
+    leaf (`MExpr.leafCM`, whose getter `cmGet` the model takes in closed form).  Both through
+    the modelled `Tensor::try_from`, `get_index_direct`, `DimensionMappings::new`. -/
+theorem tensor_leaves_refine {ν : Type} [DecidableEq ν] [Inhabited ν] (n1 n2 : ν) (hne : n1 ≠ n2)
+    (l1 l2 : Nat) (h1 : 1 ≤ l1) (h2 : 1 ≤ l2) (hb : l1 * l2 ≤ usizeMax) :
+    (∃ t v, tensorTryFrom Arith.fixed [(n1, l1), (n2, l2)] (l1 * l2) = .ok (.ok t) ∧
+      MView.ofTensor (TView.ofTensor t) = .ok v ∧ v.rows = l1 ∧ v.columns = l2 ∧
+      ∀ i j, v.get i j = .ok ((MExpr.leaf l1 l2).cell i j)) ∧
+    (∃ t a v, tensorTryFrom Arith.fixed [(n1, l1), (n2, l2)] (l1 * l2) = .ok (.ok t) ∧
+      accessTryFrom (TView.ofTensor t) [n2, n1] = .ok (.ok a) ∧
+      MView.ofTensor a = .ok v ∧ v.rows = l2 ∧ v.columns = l1 ∧
+      ∀ i j, v.get i j = .ok ((MExpr.leafCM l2 l1).cell i j) ∧ v.get i j = cmGet l2 l1 i j) :=
+  ⟨tensor_leaf_refines n1 n2 hne l1 l2 h1 h2 hb, tensor_leaf_swapped_refines n1 n2 hne l1 l2 h1 h2 hb⟩
+
+/-- **`Matrix::into_tensor` is positional too.**  For every pair of distinct names the owned
+    conversion keeps the data (`t.dataLen`) and, seen back through `MatrixRefTensor`, has the
+    matrix's size and cells; equal names are refused (C16 `intoTensor_total_err_iff`). -/
+theorem into_tensor_names_irrelevant {ν : Type} [DecidableEq ν] (m : MatrixMeta) (hm : m.Inv)
+    (rn cn : ν) (hne : rn ≠ cn) :
+    ∃ t v, matrixIntoTensor Arith.fixed m rn cn = .ok (.ok t) ∧ t.dataLen = m.dataLen ∧
+      MView.ofTensor (TView.ofTensor t) = .ok v ∧ v.rows = m.rows ∧ v.columns = m.columns ∧
+      ∀ i j, v.get i j = (MView.ofMatrix m).get i j :=
+  intoTensor_positional m hm rn cn hne
+
+/-- Non-vacuity: the names of the seeded change — a tensor `[("column", 2), ("row", 3)]` is a
+    2×3 matrix whose cell (1, 2) is offset 5; accessed as `["row", "column"]` it is 3×2 and its
+    cell (2, 1) is that same offset. -/
+example : (MExpr.leaf 2 3).cell 1 2 = some 5 ∧ (MExpr.leafCM 3 2).cell 2 1 = some 5 ∧
+    ("column" : String) ≠ "row" := by
+  refine ⟨by decide, by decide, by decide⟩
 
 /-! ## `data_layout` and equality -/
 
